@@ -2,9 +2,12 @@ package rp
 
 import (
 	"bytes"
+	"crypto/x509"
+	"crypto/x509/pkix"
 	"encoding/json"
 	"fmt"
 	cpb "github.com/google/go-sev-guest/proto/check"
+	"math/big"
 	"os"
 	"os/exec"
 	"regexp"
@@ -571,6 +574,48 @@ func RunC09(run *vk.Run) {
 			run.Case(fmt.Sprintf("sevvalidate-history:%v:%s", order, mk.name), true)
 		}
 	}
+	// a verdict does not depend on what earlier endorsements carried: an endorsement whose signing
+	// certificate was issued by an intermediate authority that its own bundle does not contain gets the
+	// same verdict before and after another endorsement, whose bundle does contain that intermediate, went
+	// through the verifier (with one validator, and with fresh ones)
+	func() {
+		m := env.m
+		nb, na := time.Date(2024, 6, 1, 0, 0, 0, 0, time.UTC), time.Date(2031, 1, 1, 0, 0, 0, 0, time.UTC)
+		inter, err := mkCert(&x509.Certificate{SerialNumber: big.NewInt(31), Subject: pkix.Name{CommonName: "GCE-cc-tcb-intermediate", Organization: []string{"Google"}}, NotBefore: nb, NotAfter: na,
+			IsCA: true, BasicConstraintsValid: true, KeyUsage: x509.KeyUsageCertSign}, m.RootCert, &m.O.PublicKey, m.R)
+		if err != nil {
+			run.Infra(err)
+			return
+		}
+		leaf, err := mkCert(&x509.Certificate{SerialNumber: big.NewInt(32), Subject: m.SignCert.Subject, NotBefore: nb, NotAfter: na,
+			KeyUsage: x509.KeyUsageDigitalSignature, BasicConstraintsValid: true}, inter, &m.E.PublicKey, m.O)
+		if err != nil {
+			run.Infra(err)
+			return
+		}
+		good := env.attOf["endorsed"].GetReport().GetMeasurement()
+		mk := func(chain []byte, fw string) (*epb.VMLaunchEndorsement, []byte) {
+			gs := GoldenSpec{Snp: map[uint32][]byte{2: good}, Digest: Meas(fw), Timestamp: time.Date(2025, 2, 1, 0, 0, 0, 0, time.UTC), ClSpec: 7, Cert: leaf.Raw, Svn: 1, Chain: chain}
+			e := Endorse(gs.Proto(), m.E)
+			b, _ := proto.Marshal(e)
+			return e, b
+		}
+		_, withInter := mk(append(pemOf(inter), pemOf(m.RootCert)...), "fw-a")
+		_, without := mk(pemOf(m.RootCert), "fw-b")
+		one := verify.SNPValidateFunc(env.roots())
+		a := env.attOf["endorsed"]
+		fresh := func(eb []byte) bool { return verify.SNPValidateFunc(env.roots())(a, eb) == nil }
+		before := one(a, without) == nil
+		freshBefore := fresh(without)
+		mid := one(a, withInter) == nil
+		_ = fresh(withInter)
+		after := one(a, without) == nil
+		freshAfter := fresh(without)
+		run.Case("successive:intermediate-in-another-bundle", true)
+		if before != after || freshBefore != freshAfter || before != freshBefore {
+			run.Violation("not-reentrant:earlier-endorsement-bundle", fmt.Sprintf("an endorsement whose signing certificate needs an intermediate authority that its own bundle lacks gets accept=%v (fresh validator: %v) before, and accept=%v (fresh validator: %v) after another endorsement whose bundle carries that intermediate went through the verifier (that one got accept=%v)", before, freshBefore, after, freshAfter, mid), nil)
+		}
+	}()
 	// options value must still give isolated results afterwards (successive use)
 	// free-running stress under the race detector (separate -race build)
 	if bin := os.Getenv("VERIF_RACE_BIN"); bin != "" {
